@@ -11,6 +11,12 @@ import sys
 
 _ENGINE_PATCHED = False
 
+# The repository under analysis. Registered checks always use /repo; VERIF_REPO lets the maintainer of /verif point the
+# same machinery at a scratch worktree (seeded-change matrix) without touching /repo.
+REPO = os.environ.get("VERIF_REPO", "/repo").rstrip("/")
+if REPO != "/repo" and REPO not in sys.path:
+    sys.path.insert(0, REPO)
+
 
 def patch_engine() -> None:
     """CrossHair 0.0.110 reads the wrong stack slot for FORMAT_VALUE with conversion+spec (flags
